@@ -445,6 +445,17 @@ func c04QuietLog() [][]gEntry {
 	return [][]gEntry{b1, b2, b3, b4}
 }
 
+// a log whose second batch is ten puts of 2 MiB applied by ONE Update call
+func c04HugeLog() [][]gEntry {
+	b1 := []gEntry{putE(1, "a", "1"), putE(2, "b", "2")}
+	var b2 []gEntry
+	for i := 0; i < 10; i++ {
+		b2 = append(b2, gEntry{Idx: uint64(3 + i), Cmd: gCmd{Kind: regattapb.Command_PUT, K: []byte(fmt.Sprintf("huge%d", i)), V: bytes.Repeat([]byte{byte('a' + i)}, 2*1024*1024-64)}})
+	}
+	b3 := []gEntry{putE(13, "d", "5")}
+	return [][]gEntry{b1, b2, b3}
+}
+
 type c04scenario struct {
 	name string
 	ops  []c04hop
@@ -697,6 +708,16 @@ func runC04(args []string) error {
 	o, u, sy, settle := c04hop{kind: 0}, c04hop{kind: 1}, c04hop{kind: 2}, c04hop{kind: 5}
 	if err := runLog(c04BigLog(), []c04scenario{
 		{"large mixed batch, unsynced", []c04hop{o, u, sy, u, settle, u}},
+		// Pebble starts a flush by itself (the 9 MiB batch); the next batch is applied while it runs; once it has ended a
+		// Sync must still cover that batch
+		{"update during Pebble's own flush, then sync", []c04hop{o, u, u, u, settle, sy}},
+	}); err != nil {
+		return err
+	}
+	// one Update of more than 16 MiB (ten entries of 2 MiB): however the state machine cuts it into Pebble batches,
+	// what is durable at any moment is whole entries together with exactly their index
+	if err := runLog(c04HugeLog(), []c04scenario{
+		{"one apply batch of 20 MiB, unsynced", []c04hop{o, u, sy, u, settle, u}},
 	}); err != nil {
 		return err
 	}
